@@ -1,5 +1,6 @@
 import Ubx.Proofs.Codec
 import Ubx.Proofs.ParseTotal
+import Ubx.Proofs.GenLen
 import Ubx.Generated.Tables
 /-!
 # C15 — bad attribute values are refused, never silently mis-encoded
@@ -63,6 +64,32 @@ theorem C15_flag_in_range (c : WCtx) (idx : List Nat) (key : Name) (l w : Nat) (
   simp only [flagsGen, flagWidth, attsiz, hw, if_false, Int.toNat_natCast, hkw, Option.getD_some, PyVal.asInt?]
   rw [if_neg (by omega)]
   simp [hres]
+
+/-- **payload length**: building from keywords a definition whose attributes all have width-exact types (everything
+    except `C`/`CH` text), whatever values are supplied, either fails or ends with the payload exactly as long as the
+    offset the walk reached — the sum of the declared widths of every attribute, bitfield and group member walked.
+    A value of the wrong size can therefore never shift a later field. -/
+theorem C15_payload_length_is_declared (c : WCtx) (hp : c.hasPayload = false) (hcv : c.cfgval = false) (d : List Item)
+    (hx : lenExactL d = true) (env : Env) (st' : WState) (h : wItems c [] d ⟨0, [], env⟩ = .ok st') :
+    st'.payload.length = st'.off :=
+  (wItems_gen_len c hp hcv [] d hx ⟨0, [], env⟩ st' h rfl).symm
+
+mutual
+def hasText : Item → Bool
+  | .attr _ ty _ => (match ty with | .ch => true | .t l _ => l == cC | .malformed _ => false)
+  | .bits _ _ _ => false
+  | .group _ _ items => hasTextL items
+def hasTextL : List Item → Bool
+  | [] => false
+  | i :: is => hasText i || hasTextL is
+end
+
+/-- table obligation: in the shipped tables the only attributes that are not width-exact are `C`/`CH` text fields
+    (the recorded finding) and the invalid types of the FOO-BAR fixture -/
+theorem C15_only_text_is_inexact :
+    ((allDefs Gen.ctx).all (fun e => lenExactL e.2.2 || hasTextL e.2.2 ||
+      Gen.exempt.any (fun x => x.1 == e.1 && x.2.1 == e.2.1 && x.2.2 == nm "W1"))) = true := by
+  decide +kernel
 
 /-- exceptions escaping the attribute walk are translated: everything in `_do_attributes`' catch lists becomes
     UBXTypeError (table obligation: the six exception types the walk can raise are all listed) -/
